@@ -6,12 +6,37 @@ O = "statham.schema.elements.object:"
 M = "statham.schema.elements.meta:"
 ECALL = "statham.schema.elements.base:Element.__call__"
 
-# caller's view of a model class's validators (the metaclass property): the list validators_of(cls) of Validator objects
-contract(M + "ObjectMeta.validators", requires="is_cls(cls)",
-         returns="is_list(result) and all_members(result, lambda m: is_obj(m) and isinstance(m, Validator))",
-         assume=["result is validators_of(cls)"], result_kind="list", kinds={"cls": "cls"}, trusted=True,
-         props=["C05", "C01"], note="caller's view of cls.validators for a model class (built by ObjectMeta.validators from the class's keywords: "
-                                     "bounded-checked through the pipeline comparison)")
+# ObjectMeta.validators: the class's type validator InstanceOf(dict, cls), an AdditionalProperties over the class's Properties,
+# and the keyword validators of the object keywords -- membership form, as for Element.validators
+from contracts import elements_base as EB
+_OBJ_CLASSES = ["Required", "MinProperties", "MaxProperties", "PropertyNames", "Const", "Enum", "Dependencies"]
+def _obj_val_post():
+    sub = lambda t: t.replace("element", "cls")
+    gv = [(C, present, params) for C, present, params in EB._GV if C in _OBJ_CLASSES]
+    cl = [f"implies({sub(present)}, some_member(result, lambda m: type_is(m, {C}) and dict_wf(m.params) and {sub(params)}))" for C, present, params in gv]
+    cl += [f"all_members(result, lambda m: implies(type_is(m, {C}), ({sub(present)}) and dict_wf(m.params) and {sub(params)}))" for C, present, params in gv]
+    cl += ["all_members(result, lambda m: type_is(m, InstanceOf) or type_is(m, AdditionalProperties) or " + " or ".join(f"type_is(m, {C})" for C, _, _ in gv) + ")"]
+    tp = "dict_wf(m.params) and has(m.params,'types') and is_tuple(m.params['types']) and len(m.params['types']) == 2 and m.params['types'][0] is dict and m.params['types'][1] is cls"
+    cl += [f"some_member(result, lambda m: type_is(m, InstanceOf) and {tp})", f"all_members(result, lambda m: implies(type_is(m, InstanceOf), {tp}))"]
+    ap = "dict_wf(m.params) and has(m.params,'__properties__') and isinstance(m.params['__properties__'], Properties)"
+    cl += [f"some_member(result, lambda m: type_is(m, AdditionalProperties) and {ap})", f"all_members(result, lambda m: implies(type_is(m, AdditionalProperties), {ap}))"]
+    return " and ".join(cl)
+contract(M + "ObjectMeta.validators",
+         requires="is_cls(cls) and isinstance(cls, ObjectMeta) and elem_wf(cls) and bound(cls) and " + EB.GV_REQ.replace("element", "cls"),
+         returns="is_list(result) and all_members(result, lambda m: is_obj(m) and isinstance(m, Validator)) and " + _obj_val_post(),
+         assume=["result is validators_of(cls)"], result_kind="list", kinds={"cls": "cls"},
+         props=["C05", "C01", "C04", "C15"])
+
+# the metaclass properties, verified for a symbolic model class
+contract(M + "ObjectMeta.type_validator", requires="is_cls(cls)",
+         returns="type_is(result, InstanceOf) and dict_wf(result.params) and has(result.params,'types') and is_tuple(result.params['types']) and "
+                 "len(result.params['types']) == 2 and result.params['types'][0] is dict and result.params['types'][1] is cls",
+         kinds={"cls": "cls"}, ghost={"result_fresh": True}, props=["C01", "C04"])
+
+# Element.__properties__ read from a model *class* (ObjectMeta is a subclass of Element, so the property applies to classes)
+contract("statham.schema.elements.base:Element.__properties__", inst="@cls", requires="is_cls(self) and isinstance(self, ObjectMeta) and elem_wf(self) and bound(self)",
+         returns="type_is(result, Properties) and result.element is self and props_wf(result)", ghost={"result_fresh": True}, result_cls="Properties",
+         kinds={"self": "cls"}, props=["C01", "C04", "C05"])
 
 # Object.__new__: the class-based twin of Element.__call__.
 #   an instance of the class passes through; with no value: NotPassed when the class has no default, else the default converted
@@ -19,7 +44,8 @@ contract(M + "ObjectMeta.validators", requires="is_cls(cls)",
 #   of the class is run -- raises ValidationError iff one of them rejects -- and a fresh, attribute-less instance is returned
 #   for __init__ to fill.
 contract(O + "Object.__new__",
-         requires="is_cls(cls) and isinstance(cls, ObjectMeta) and not attr_absent(cls,'default') and (is_np(cls.default) or is_json(cls.default)) and "
+         requires="is_cls(cls) and isinstance(cls, ObjectMeta) and elem_wf(cls) and bound(cls) and " + EB.GV_REQ.replace("element", "cls") + " and "
+                  "not attr_absent(cls,'default') and (is_np(cls.default) or is_json(cls.default)) and "
                   "(is_json(value) or is_np(value) or is_obj(value)) and " + PROPERTY_OK,
          returns="implies(isinstance(value, cls), result is value) and "
                  "implies(not isinstance(value, cls) and is_np(value) and is_np(cls.default), result is value) and "
